@@ -298,6 +298,12 @@ def decl_sources(style: str, u: str) -> dict[str, tuple[str, list[tuple[str, str
             f"def fe{u}(a: int) -> int:\n    \"\"\"{t('F5S')}.\n\n    {t('F5D')} extended.\n\n    Args:\n        a: {t('F5a')} first.\n\n    {t('F5T')} trailing text.\n    \"\"\"\n    return a\n",
             [(t("F5S"), f"fe{u}", "description", None), (t("F5D"), f"fe{u}", "description", None), (t("F5a"), f"fe{u}", "param", "a"), (t("F5T"), f"fe{u}", "description", None)],
         )
+    # a result described without a type, in a sentence that contains a colon: the whole sentence is the description
+    if style == "GOOGLE":
+        out["F7"] = (
+            f"def fg{u}(a: int) -> int:\n    \"\"\"{t('F7S')}.\n\n    Returns:\n        The {t('F7a')} scaled value: {t('F7b')} times the factor.\n    \"\"\"\n    return a\n",
+            [(t("F7S"), f"fg{u}", "description", None), (t("F7a"), f"fg{u}", "result", "result_1"), (t("F7b"), f"fg{u}", "result", "result_1")],
+        )
     # parameters documented in the styles' second parameter section ('Other Parameters' / 'Keyword Args')
     if style == "NUMPYDOC":
         out["F6"] = (
@@ -317,7 +323,7 @@ def decl_sources(style: str, u: str) -> dict[str, tuple[str, list[tuple[str, str
     out["K2"] = (
         f"class Kb{u}:\n" + d(t("K2S") + ".", t("K2D"), 4) + "\n"
         f"    def __init__(self, p: int) -> None:\n" + d(t("K2iS") + ".", t("K2iD"), 8, params=[("p", "int", t("K2p"))]) + "        self.q = p\n",
-        [(t("K2S"), f"Kb{u}", "description", None), (t("K2D"), f"Kb{u}", "description", None)] + ([(t("K2p"), f"Kb{u}", "param", "p")] if style == "NUMPYDOC" else []),
+        [(t("K2S"), f"Kb{u}", "description", None), (t("K2D"), f"Kb{u}", "description", None)] + ([(t("K2p"), f"Kb{u}", "param", "p")] if structured else []),
     )
     return out
 
@@ -356,7 +362,7 @@ def part_b(rep: Report, tier: str) -> None:
         # style-specific declarations (text after the sections, second parameter section, grouped attributes)
         u = f"{next(uid):05d}"
         ds = decl_sources(style, u)
-        extra_names = [n for n in ("F5", "F6", "K5") if n in ds]
+        extra_names = [n for n in ("F5", "F6", "F7", "K5") if n in ds]
         if extra_names:
             units.append(("style-specific", style, f"d{u}", "\n\n".join(ds[n][0] for n in extra_names), [e for n in extra_names for e in ds[n][1]], None))
         # a module WITHOUT docstring whose later string statement describes a variable: no module description
